@@ -2,7 +2,21 @@
 from ..events import (all_events, is_own_mailbox_id, construct_of, handler_paths,
                       handler_for, frame_type, flat_events)
 from ..report import render_path
-from ..terms import show, plain, is_const, strip_wrappers, mentions, walk
+from ..terms import show, plain, is_const, mentions, walk
+from ..terms import strip_wrappers as _strip_plain
+
+
+def strip_wrappers(t):
+    """for "never removes an active channel" a slice of the expired set is as
+    good as the set: its elements are elements of the set (that a sweep then
+    leaves some for later is C13's concern, rule R13.all)"""
+    while True:
+        t2 = _strip_plain(t)
+        if isinstance(t2, tuple) and t2 and t2[0] == "slice":
+            t2 = t2[1]
+        if t2 == t:
+            return t
+        t = t2
 from ..e3 import pc_truth
 from .. import e4 as e4mod
 from .. import scope as scopemod
@@ -25,6 +39,16 @@ EXPLANATION = (
 EXPLANATION += ' Also decided: subscriptions are keyed by their connection, and when the sweep stamps from an index of subscribed mailboxes, that index covers every mailbox with a listener.'
 
 
+def _is_refresh_loop(loop_ev):
+    """a loop of the sweep in which `mailboxes.updated` is stamped"""
+    for alt in loop_ev["alts"]:
+        for x, _ in flat_events(alt["events"]):
+            if x["k"] == "sql" and x["db"] == "chan" and x["stmt"].kind == "update" and \
+                    x["stmt"].table == "mailboxes" and "updated" in x["stmt"].cols:
+                return True
+    return False
+
+
 def run(ctx):
     model = ctx.model
     from .. import roles as _roles
@@ -32,6 +56,14 @@ def run(ctx):
     global _R
     _R = R
     interp = model.interp
+    from . import shared as _sh
+    _sh.r_collation(ctx, "R12.exact", ("nameplates", "nameplate_sides", "mailboxes",
+                                       "mailbox_sides", "messages"),
+                    "a sweep delete keyed by the id of an expired channel also removes "
+                    "rows of a live channel whose id SQLite considers equal")
+    _sh.r_full_loops(ctx, "R12.all", "a subscribed mailbox that comes later is not "
+                     "refreshed and expires while a client is still connected to it",
+                     only=_is_refresh_loop)
     ctx.rule("R12.stamp", "claim/allocate/open/add stamp mailboxes.updated of their "
              "mailbox with the command's time on every non-error path")
     ctx.rule("R12.touch", "the sweep stamps every mailbox with listeners and commits "
@@ -260,8 +292,10 @@ def _classification(ctx, model, p, loop, rows, old_param, old_coll):
     interp = model.interp
     for alt in loop["alts"]:
         adds = [x for x, _ in flat_events(alt["events"]) if x["k"] == "coll_add"]
-        ok1 = len(adds) == 1 and alt["out"] == "normal"
-        ctx.ob("R12.cmp", "every mailbox row lands in exactly one set", ok1, loop,
+        # (that every row lands in *some* set is C13's concern, R13.exh; here a
+        # row must not land in two -- the live set and the delete set)
+        ok1 = len(adds) <= 1 and alt["out"] == "normal"
+        ctx.ob("R12.cmp", "no mailbox row lands in two sets", ok1, loop,
                "" if ok1 else "an iteration of the classification adds the mailbox to %d "
                "sets" % len(adds))
     if old_coll is None or old_coll[0] != "coll":
